@@ -60,6 +60,8 @@ fn gen(prop: &str, tier: Tier, seed: u64, em: &mut Emitter) {
         "C10" => nrpn::gen_c10(tier, seed, em),
         "C11" => nrpn::gen_c11(tier, seed, em),
         #[cfg(feature = "cfg_std")]
+        "C12" => polling::gen_c12(tier, seed, em),
+        #[cfg(feature = "cfg_std")]
         "C13" => polling::gen_c13(tier, seed, em),
         #[cfg(feature = "cfg_std")]
         "C14" => polling::gen_c14(tier, seed, em),
